@@ -52,6 +52,19 @@ func main() {
 				}
 			}
 		}
+		// parallel builders reading the same feature objects (one in-memory
+		// source handed to three concurrent builds): each builder works on its
+		// own clones, so nothing of the source may be written
+		shared := ingest.MemoryFeatureSource(src.Spec.Features())
+		var bwg sync.WaitGroup
+		for g := 0; g < 3; g++ {
+			bwg.Add(1)
+			go func() {
+				defer bwg.Done()
+				_, _ = ingest.NewWorldFromSource(shared, &ingest.BuildOptions{Cores: 2})
+			}()
+		}
+		bwg.Wait()
 		if m, _ := wk.BasicMutable(src.Spec); m != nil {
 			readers(m, 4)
 		}
